@@ -135,4 +135,4 @@ _add("C11", "no product of two non-constant integers in the calculators.")
 _add("C12", "in TryPass the state word is read before the retry deadline (mirror of deadline-before-open).")
 _add("C13", "the builders append to their result in a single loop over the loaded rules (order loaded = order enforced).")
 _add("C16", "the block error and every other field of the pooled result / context are reset on recycle.")
-_add("C17", "fixed-size records are never taken from a raw Read whose byte count is ignored.")
+_add("C17", "fixed-size records are never taken from a raw Read whose byte count is ignored; a data line is parsed only when its terminator was read (defect F24 fixed and guarded).")
